@@ -129,6 +129,11 @@ func childMain() error {
 		if perr != nil {
 			return perr
 		}
+		if w.kept.full() {
+			n, vs := w.kept.flush()
+			res.Evals += n
+			res.Violations = append(res.Violations, vs...)
+		}
 		res.Ms = time.Since(t0).Milliseconds()
 		b, err := json.Marshal(res)
 		if err != nil {
@@ -137,6 +142,12 @@ func childMain() error {
 		if _, err := of.Write(append(b, '\n')); err != nil {
 			return err
 		}
+	}
+	// every value still kept, after the rest of the shard and a burst of further decodes
+	fmt.Fprintf(pf, "%d stability/recheck\n", 1<<30)
+	n, vs := w.kept.flush()
+	if b, err := json.Marshal(&caseResult{I: -1, ID: "stability/recheck", Extra: true, Evals: n, Violations: vs}); err == nil {
+		of.Write(append(b, '\n'))
 	}
 	fmt.Fprintf(pf, "done\n")
 	return nil
